@@ -4,15 +4,14 @@ CONSTANTS
   Filt <- NoFilt
   OptR = FALSE
   OptU = FALSE
-  DeleteAfter = 60
+  DeleteAfter = 2
   Ticks <- TickSet
-  MaxSteps = 4
-  Batch <- One
-  TickResetsCtr = FALSE
+  MaxSteps = 5
+  Batch <- Batches
+  TickResetsCtr = TRUE
 INVARIANT InvFold
 INVARIANT InvExpiry
 INVARIANT InvCount
-INVARIANT InvRange
 PROPERTY Isolation
 VIEW View
 CHECK_DEADLOCK FALSE
